@@ -14,6 +14,7 @@ from typing import Any
 
 from ..core import Ctx
 from ..core import REPO_DIR
+from ..core import safe_repr
 from ..gen import corpus
 from ..instr.sched import drive
 from ..instr.steps import StepBudgetExceeded
@@ -158,6 +159,9 @@ class Runner:
             reached = True
             key = f"{type(e).__name__}@{_innermost(e.__traceback__)}"
             what = f"non-LiquidError escaped: {type(e).__name__}: {str(e)[:120]}"
+            if isinstance(e, ValueError) and "for integer string conversion" in str(e):
+                # one mechanism, many call sites: the interpreter's int <-> str digit limit
+                key = f"int-str-digit-limit@{_innermost(e.__traceback__)}"
         finally:
             steps = sc.disarm()
         if record:
@@ -178,7 +182,7 @@ class Runner:
         if record:
             ctx.ev()
             if reached and source not in self.corpus_sources:
-                ctx.nt(source, repr(data) if data else "", mode)
+                ctx.nt(source, safe_repr(data) if data else "", mode)
         if key and record:
             wit = {"source": source, "data": data, "templates": templates, "mode": mode}
             if key not in ctx.violations and len(source) <= 4000:
@@ -209,7 +213,8 @@ def deep(n: int) -> Any:
 
 
 HOSTILE: list[Any] = [
-    None, True, False, 0, 1, -1, 2, -7, 2**63, -(2**63), 10**400, -(10**400),
+    None, True, False, 0, 1, -1, 2, -7, 2**63, -(2**63), 10**400, -(10**400), 10**5000, -(10**4400),
+    "9" * 4299, "9" * 4301, "-" + "7" * 5000,
     0.0, -0.0, 1.5, -2.5, 1e308, -1e308, 5e-324, float("nan"), float("inf"), float("-inf"),
     "", " ", "a", "abc", "1", "-1", "1.5", "1e3", "1e400", "-1e400", "nan", "inf", "-inf",
     "Infinity", "50%", "%s", "%(x)s", "{0}", "0x10", "１２", "٣", "1_000", "--1", "+5", " 7 ",
@@ -357,6 +362,7 @@ def shards(tier: str, seed: int) -> list[dict[str, Any]]:
     for i in range(nc):
         specs.append({"kind": "confused", "i": i, "n": nc})
     specs.append({"kind": "rangeprobe"})
+    specs.append({"kind": "numlit"})
     ng = 5 if tier == "quick" else 16
     for i in range(ng):
         specs.append({"kind": "genconf", "i": i, "n": ng, "per": 1200 if tier == "quick" else 12000})
@@ -387,6 +393,8 @@ def run_shard(spec: dict[str, Any], ctx: Ctx) -> None:
             _rangeprobe(r, spec, ctx)
         elif kind == "genconf":
             _genconf(r, spec, ctx)
+        elif kind == "numlit":
+            _numlit(r, spec, ctx)
     finally:
         r.sc.stop()
 
@@ -492,6 +500,43 @@ def _confused(r: Runner, spec: dict[str, Any], ctx: Ctx) -> None:
                 r.execute(c["template"], d, c["templates"], "sync")
     if last:
         ctx.sample({"kind": "confused", "source": last[0], "data": last[1]})
+
+
+def _numlit(r: Runner, spec: dict[str, Any], ctx: Ctx) -> None:
+    """Numeric literals and computed integers around the interpreter's int <-> str digit
+    limit (every spelling: plain digits, e / E / e+ exponents with short and long
+    mantissas, negative, floats with huge exponents), in every position a literal can take."""
+    import sys
+
+    lim = sys.get_int_max_str_digits() if hasattr(sys, "get_int_max_str_digits") else 4300
+    rng = random.Random(f"{spec['seed']}:numlit")
+    lits: list[str] = []
+    for d in (-3, -2, -1, 0, 1, 2, 3, 50):
+        n = lim + d
+        lits.append("9" * n)
+        lits.append("-" + "1" + "0" * (n - 1))
+        for mant in ("1", "12", "123456", "9" * 17, "9" * 40):
+            for e in ("e", "E", "e+", "E+"):
+                lits.append(f"{mant}{e}{n - len(mant)}")
+                lits.append(f"{mant}{e}{n}")
+        lits.append(f"1.5e{n}")
+        lits.append(f"1e-{n}")
+    lits += ["1e400", "1.0e400", "-1e309", "1e99999", "1e999999999", "0e0", "00012", "1e+0", "9" * 10000]
+    sites = ["{{ LIT }}", "{{ 'a' | append: LIT }}", "{% assign n = LIT %}{{ n | minus: 1 }}", "{{ LIT | plus: 1 }}",
+             "{% if LIT == x %}t{% endif %}", "{{ 'x${LIT}y' }}", "{% for i in (LIT..LIT) %}{{ i }}{% endfor %}",
+             "{{ a[LIT] }}", "{% case LIT %}{% when 1 %}a{% endcase %}", "{{ LIT | json }}", "{% cycle LIT, 1 %}",
+             "{{ x | times: LIT | size }}", "{% liquid\necho LIT\n%}"]
+    for lit in lits:
+        for site in sites:
+            r.execute(site.replace("LIT", lit), {"x": 3, "a": [1, 2]}, {}, "async" if rng.random() < 0.3 else "sync")
+            ctx.count("numeric_limit_probes")
+    # computed integers crossing the limit
+    for tpl in ["{{ a | times: a | times: a }}", "{% assign b = a | times: a %}{{ b | times: b }}", "{{ a | plus: 1 | append: 'x' }}",
+                "{{ a | times: a | json }}", "{% if a | times: a %}y{% endif %}{{ a | times: a | times: a | size }}"]:
+        for a in (10**1500, 10**2149, 10**2150, -(10**4299), 10**4299, 10**4300):
+            r.execute(tpl, {"a": a}, {}, "sync")
+            ctx.count("numeric_limit_probes")
+    ctx.sample({"kind": "numeric-limit", "source": sites[0].replace("LIT", lits[5])[:80] + "…"})
 
 
 def _genconf(r: Runner, spec: dict[str, Any], ctx: Ctx) -> None:
